@@ -97,6 +97,9 @@ class Script:
             if self._pending_entry is None:
                 raise ScriptError("unexpected new frame %s" % frame.f_code.co_name)
             self._pending_entry["fid"] = fid
+            # did the tracer consult the sampling RNG for this call's entry, and what did it draw?
+            self._pending_entry["drawn"] = len(self.draw_log) > self._draw_mark
+            self._pending_entry["draw"] = self.cur_draw
             self.emit(**self._pending_entry)
             self._pending_entry = None
         if not self.stack or self.stack[-1] != fid:
@@ -148,6 +151,7 @@ class Script:
         op = a["op"]
         caller = self.stack[-1] if self.stack else 0
         self.cur_draw = a.get("draw", 0)
+        self._draw_mark = len(self.draw_log)
         try:
             if op in ("Call", "Create"):
                 args, kwargs = a["args"], a["kwargs"]
@@ -163,12 +167,14 @@ class Script:
                 ev = self._pending_entry
                 self._pending_entry = None
                 ev["fid"] = fid
+                ev["drawn"], ev["draw"] = False, 0      # creating a generator / coroutine object runs no frame
                 self.emit(**ev)
                 return None
             fid = a["id"]
             obj = self.objs[fid]
             if op == "Resume":
-                self.emit(ev="Resume", fid=fid, caller=caller, catch=a.get("catch", True))
+                self.emit(ev="Resume", fid=fid, caller=caller, catch=a.get("catch", True), drawn=False, draw=self.cur_draw)
+                ev, mark = self.events[-1], len(self.draw_log)
                 try:
                     if hasattr(obj, "gi_frame"):
                         next(obj)
@@ -176,6 +182,8 @@ class Script:
                         obj.send(None)
                 except StopIteration:
                     pass
+                finally:
+                    ev["drawn"] = len(self.draw_log) > mark
                 return None
             if op == "Throw":
                 self.emit(ev="Throw", fid=fid, caller=caller)
@@ -199,6 +207,7 @@ class Script:
                     fused = (self.targets[nxt["target"]](), nxt["args"], nxt["kwargs"],
                              {"ev": "Call", "f": nxt["f"], "kind": nxt["kind"], "wanted": nxt["wanted"], "caller": caller,
                               "catch": True, "args": self._bound(nxt, nxt["args"], nxt["kwargs"])}, nxt.get("draw", 0))
+                    self._draw_mark = len(self.draw_log) + 10 ** 9   # the draw of a fused call is not attributed
                 self.emit(ev="Drop", fid=fid, caller=caller)
                 frame = self.keep.pop(fid, None)
                 if frame is not None:
@@ -238,6 +247,7 @@ class Script:
 
     # ---- the driver ----------------------------------------------------------------------
     _pending_entry = None
+    _draw_mark = 0
 
     def drive(self):
         """Run the script from the top level (the driver catches everything scripted)."""
